@@ -217,6 +217,11 @@ def Wr.setAllValues (pi : α) (w : Wr α) (pl : List (Nat × α)) : Except Exc (
 def Wr.setValue (pi : α) (w : Wr α) (n : Nat) (v : α) : Except Exc (Wr α) :=
   if (findTP n w.params).isNone then .error .notfound else w.setValues pi [(n, v)]
 
+/-! ### the derivative switches: pure delegation to the wrapped function (h:149-151, h:203-205) -/
+
+def Fn.enableFirst (f : Fn α) (yn : Bool) : Fn α := { f with d1on := yn }
+def Fn.enableSecond (f : Fn α) (yn : Bool) : Fn α := { f with d2on := yn }
+
 /-! ### evaluation -/
 
 def Fn.indexOf (f : Fn α) (n : Nat) : Option Nat := f.ps.findIdx? (fun p => p.name == n)
